@@ -38,7 +38,15 @@ VERIF = os.path.dirname(HERE)
 # deviation switches of spec/AyDump.tla that reproduce the code as it is (every one is a finding on the pinned tree)
 ASIS = ["ElideDelDefault", "ElideDelParent", "ElideNewDefault", "ElideNewParent", "ElideSafeDefault", "ElideSafeParent", "PlainTagNotPushed",
         "SafeTagTrue", "NullDropsFlags", "ClearNoValue", "PathNoRefWraps", "ReprQuoting"]
-if os.environ.get("C18_ASIS") is not None:      # e.g. C18_ASIS="" AY_REPO=<tree with the proposed fix>: the library against the intended design
+# ... which of them describe the library under test is decided by /verif/known_findings.json (never written at run time):
+# a switch is on iff an entry of kind "known" names it as its deviation; "fixed" entries switch nothing on.
+ALL_SWITCHES = list(ASIS)
+try:
+    _kf = json.load(open(os.path.join(VERIF, "known_findings.json")))["findings"]
+    ASIS = [sw for sw in ALL_SWITCHES if any(f.get("kind") == "known" and f.get("deviation") == sw for f in _kf)]
+except Exception:  # noqa
+    pass
+if os.environ.get("C18_ASIS") is not None:      # e.g. C18_ASIS=ElideDelDefault AY_REPO=<tree without that fix>
     ASIS = [x for x in os.environ["C18_ASIS"].split(",") if x]
 INVS = ["Inv_DumpOk", "Inv_Interchangeable", "Inv_SameValue", "Inv_SameMd", "Inv_DumpStable"]
 
